@@ -83,3 +83,10 @@ title: A --- B"), bs "<p>body</p>
 more") /\ fence_free (bs "
 title: A --- B").
 Proof. split; [vm_compute; reflexivity|apply fence_free_dec; vm_compute; reflexivity]. Qed.
+(* ... and conversely: whenever a block is recognised it is fence-free, and the file is the fence, the block, a line feed,
+   the fence, then the body (after the one line feed that may follow the closing fence) *)
+Theorem C05_front_matter_sound : forall s y body, extract s = (Some y, body) ->
+  fence_free y /\ exists tail, s = fence ++ y ++ x0a :: fence ++ tail /\
+    body = match tail with c :: r => if beq c x0a then r else tail | [] => [] end.
+Proof. exact extract_sound. Qed.
+Print Assumptions C05_front_matter_sound.
